@@ -13,4 +13,16 @@ RotatesFull  == {90 * k : k \in -12..12} \cup Oblique
 MarksSmall == {<<1, 1>>, <<0, 2>>}
 MarksFull  == {<<0, 0>>, <<1, 1>>, <<0, 2>>}
 NoDev == {}
+\* Rotate spellings, UserUnit values and CropBox placements
+IntOnly == {"int"}
+BothForms == {"int", "real"}
+NoUnit == {1}
+Units == {1, 2}
+NoCrop == {"absent"}
+AllCrops == {"absent", "inside", "inside-urll", "outside"}
+XsTwo == {0, 2}
+YsOne == {-1}
+RotatesFew == {0, 90, -90, 180, 450}
+OrdersPlain == {"llur"}
+MarksOne == {<<1, 1>>}
 =============================================================================
